@@ -17,3 +17,9 @@ claim("C10",
   "Decides for every path of tglib.NASDecode (NIA1/NIA2) which header types can take it and checks on each: DL COUNT reset exactly for types 3/4 before the estimate; overflow+1 exactly when stored SQN > received SQN, then SQN := payload[6]; MAC over payload[6:] and cipher over payload[7:] with the UE's algorithm/key, DLCount.Get(), BEARER 1, DIRECTION 1; cipher exactly for types 2/4; plain messages untouched; NAS-PDU IE chosen by id. This is the per-message step of every downlink history.",
   "Level 'other'. Not decided: cipher/MAC arithmetic (C07), behaviour on MAC mismatch (the code only prints), NIA0 branch (outside the quantifier).",
   "DESIGN.md §5 C10")
+
+claim("C07",
+  "constant-table regeneration (S-boxes from their algebraic definitions), GF(2)-linear bit-provenance abstract interpretation of IV/counter-block/LFSR/S-box-recombination code, canonical access-path matching of the cipher structure, interval analysis of variable shift counts with dominating-guard refinement, residue-class abstract evaluation of the EIA1 block arithmetic, dominance checks for re-initialisation",
+  "Decides, for all keys/COUNT/BEARER/DIRECTION/lengths at once, the table and layout facts on which conformance of NEA1/NIA1/NEA2/NIA2 rests: 512 S-box entries, MULalpha/DIValpha exponents, S1/S2 recombination, LFSR taps, FSM update, key/IV loading, 32+1 clocks, IV and counter-block bit layouts, key word order, algorithm dispatch, NEA0 identity, whole-message coverage of the keystream (shift-count ranges, tail octets, block counts for every LENGTH mod 64), and re-initialisation of the generator on every call.",
+  "Level 'other': necessary structural conditions. Not decided: bit-exact equality with the 3GPP algorithms as a whole (no independent implementation is executed); AES/CTR/CMAC are trusted (crypto/aes, crypto/cipher, aead/cmac). A rewrite of the SNOW 3G core into another shape (e.g. table-driven MULalpha) is reported as not matching the recognised structure.",
+  "DESIGN.md §5 C07")
